@@ -29,6 +29,7 @@ import SimplicityModel.PruneTerm
 import SimplicityModel.PruneBridge
 import SimplicityModel.Prune
 import SimplicityModel.PruneTrace
+import SimplicityModel.PruneRetypeThm
 
 namespace Props.C08
 open BM4 Prog
@@ -135,6 +136,132 @@ example : ∃ es S es' S',
     Inf.unify unifyFuel es' [] = .ok S' ∧
     tyOfInf (Inf.closeUnit S 5) = .sum .one .one ∧ tyOfInf (Inf.closeUnit S' 5) = .one :=
   ⟨_, _, _, _, rfl, rfl, rfl, rfl, rfl, rfl⟩
+
+/-! ## (P) plan level: the re-typed pruned program -/
+
+/-- **Same behaviour after re-typing, plan level** (the functions the driver runs).
+
+Let `p` be a plan whose children precede their parents (`wf`), `arr` the arrows inferred for it
+(`inferM`, all nodes), `x` the term node `i` elaborates to (`elabNode`, any witness bits `wit`, root
+table `cm`, jet semantics `jets`), and suppose its run on a well-typed input `v`, labelled by the
+identities `ids`, succeeds with output `o` and tracker record `tr`.  Let `S` be any tracker content
+that covers `tr.sides` (in use `S = tr.sides`), `p1 = prunePlan S ids cmf p` the pruned plan, `mask` a
+set of nodes of the plan that contains `i` and is closed under the children *of the pruned plan* (in
+use: the `reachable` nodes), `a1` the arrows **re-inferred** for `p1` restricted to `mask`, and `wit'`
+witness bits that agree with `pruneWit` (decode at the old type, `pruneV` to the new type, encode) on
+the selected witness nodes.  Then node `i` of `p1` elaborates with `a1` and `wit'` to a term `t'` at
+the re-inferred arrow `a1[i]`, and `t'` maps the pruned input to the pruned output:
+`evalK t' (pr a' v) = ok (pr b' o)`.  Moreover the tracker record of that run — under any labelling
+`ids'`, e.g. the identity roots of the pruned program — is the record of the original run, read in
+plan indices (`trI`) and relabelled by `ids'`. -/
+theorem eval_prune_retyping (jt : JetTypes) (p : Plan) (wit : Nat → Option (List Bool)) (cm : Array Nat)
+    (jets : JetSem) (S : List (Nat × Bool)) (ids ids' : Nat → Nat) (cmf : Nat → Nat) (mask : Nat → Bool)
+    (prog : Bool) {arr a1 : Array (Ty × Ty)} (wit' : Nat → Option (List Bool))
+    (hwf : wf p = true)
+    (harr : inferM jt p (fun _ => true) prog = .ok arr)
+    (ha1 : inferM jt (prunePlan S ids cmf p) mask prog = .ok a1)
+    (hlt : ∀ j, mask j = true → j < p.size)
+    (hclosed : ∀ j nd', mask j = true → (prunePlan S ids cmf p)[j]? = some nd' →
+      ∀ c ∈ nd'.children, mask c = true)
+    (hwit : ∀ j, mask j = true → p[j]? = some .witness → wit' j = pruneWit wit arr a1 j)
+    (f i : Nat) (hmi : mask i = true) (x : Σ a b, Term a b)
+    (hx : elabNode { plan := p, arrows := arr, wit := wit, cmr := cm, jets := jets } f i = some x)
+    (v o : Val) (tr : Trace) (hv : HasTy v x.1)
+    (hrun : evalT x.2.2 (labOf p ids f i) v = .ok (o, tr))
+    (hS : ∀ s ∈ tr.sides, s ∈ S) :
+    ∃ (t' : Term (a1.getD i (.one, .one)).1 (a1.getD i (.one, .one)).2) (trI : Trace),
+      elabNode { plan := prunePlan S ids cmf p, arrows := a1, wit := wit', cmr := cm, jets := jets } f i
+        = some ⟨_, _, t'⟩ ∧
+      evalK t' (pr (a1.getD i (.one, .one)).1 v) = .ok (pr (a1.getD i (.one, .one)).2 o) ∧
+      tr = trI.map ids ∧
+      evalT t' (labOf (prunePlan S ids cmf p) ids' f i) (pr (a1.getD i (.one, .one)).1 v)
+        = .ok (pr (a1.getD i (.one, .one)).2 o, trI.map ids') := by
+  obtain ⟨t', trI, h1, h2, _, h3, _⟩ := eval_retyped_prune jt p wit cm jets S ids ids' cmf mask prog wit'
+    hwf harr ha1 hlt hclosed hwit f i hmi x hx v o tr hv hrun hS
+  refine ⟨t', trI, h1, ?_, h2, h3⟩
+  have := evalT_fst t' (labOf (prunePlan S ids cmf p) ids' f i) (pr (a1.getD i (.one, .one)).1 v)
+  rw [h3] at this
+  exact this.symm
+
+/-- the same with the driver's selection: the nodes `reachable` in the pruned plan (contains the
+root, is closed under children — `reachable_root`, `reachable_closed`), the tracker's own record,
+the root node of a non-empty plan.  With `cmrs_prunePlan` (the root table of the pruned plan is
+the root table of the plan) this is every ingredient of `Drv.C08.prunePipeline`/`antiDos`. -/
+theorem eval_prune_retyping_reachable (jt : JetTypes) (p : Plan) (wit : Nat → Option (List Bool))
+    (cm : Array Nat) (jets : JetSem) (ids ids' : Nat → Nat) (cmf : Nat → Nat) (prog : Bool)
+    {arr a1 : Array (Ty × Ty)} (wit' : Nat → Option (List Bool)) (hwf : wf p = true) (hp : 0 < p.size)
+    (harr : inferM jt p (fun _ => true) prog = .ok arr)
+    (f : Nat) (x : Σ a b, Term a b)
+    (hx : elabNode { plan := p, arrows := arr, wit := wit, cmr := cm, jets := jets } f (p.size - 1) = some x)
+    (v o : Val) (tr : Trace) (hv : HasTy v x.1)
+    (hrun : evalT x.2.2 (labOf p ids f (p.size - 1)) v = .ok (o, tr))
+    (ha1 : inferM jt (prunePlan tr.sides ids cmf p)
+      (fun j => (reachable (prunePlan tr.sides ids cmf p)).getD j false) prog = .ok a1)
+    (hwit : ∀ j, (reachable (prunePlan tr.sides ids cmf p)).getD j false = true → p[j]? = some .witness →
+      wit' j = pruneWit wit arr a1 j) :
+    ∃ (t' : Term (a1.getD (p.size - 1) (.one, .one)).1 (a1.getD (p.size - 1) (.one, .one)).2),
+      elabNode { plan := prunePlan tr.sides ids cmf p, arrows := a1, wit := wit', cmr := cm, jets := jets } f
+        (p.size - 1) = some ⟨_, _, t'⟩ ∧
+      evalK t' (pr (a1.getD (p.size - 1) (.one, .one)).1 v) = .ok (pr (a1.getD (p.size - 1) (.one, .one)).2 o) := by
+  have hwf1 := wf_prunePlan tr.sides ids cmf p hwf
+  have hsz := prunePlan_size tr.sides ids cmf p
+  obtain ⟨t', _, h1, h2, _, _⟩ := eval_prune_retyping jt p wit cm jets tr.sides ids ids' cmf _ prog wit' hwf harr ha1
+    (fun j hj => by have := reachable_lt _ hj; rwa [hsz] at this)
+    (fun j nd' hj hnd' => reachable_closed _ hwf1 hj hnd')
+    hwit f (p.size - 1)
+    (by have := reachable_root (prunePlan tr.sides ids cmf p) (by rw [hsz]; exact hp); rwa [hsz] at this)
+    x hx v o tr hv hrun (fun _ hs => hs)
+  exact ⟨t', h1, h2⟩
+
+/-! non-vacuity of `eval_prune_retyping`: `comp (pair wit iden) (case unit (take (case unit unit)))`,
+the witness `inl ()` of type `1 + (2 × 1)` selects the left branch; pruning turns node 7 into
+`assertl`, nodes 4, 5, 6 become unreachable, the witness is re-typed to `1 + 1 = 2`. -/
+section Example
+def exPlan : Plan := #[.witness, .iden, .pair 0 1, .unit, .unit, .case 4 4, .take 5, .case 3 6, .comp 2 7]
+def exWit : Nat → Option (List Bool) := fun i => if i = 0 then some [false] else none
+def exT0 : Ty := .sum .one (.prod (.sum .one .one) .one)
+def exArr : Array (Ty × Ty) :=
+  #[(.one, exT0), (.one, .one), (.one, .prod exT0 .one), (.prod .one .one, .one), (.prod .one .one, .one),
+    (.prod (.sum .one .one) .one, .one), (.prod (.prod (.sum .one .one) .one) .one, .one),
+    (.prod exT0 .one, .one), (.one, .one)]
+def exArr1 : Array (Ty × Ty) :=
+  #[(.one, .sum .one .one), (.one, .one), (.one, .prod (.sum .one .one) .one), (.prod .one .one, .one),
+    (.one, .one), (.one, .one), (.one, .one), (.prod (.sum .one .one) .one, .one), (.one, .one)]
+def exPlan1 : Plan := prunePlan [(7, false)] (fun j => j) (fun _ => 0) exPlan
+
+theorem ex_infer : inferM (fun _ => none) exPlan (fun _ => true) true = .ok exArr := by
+  have : ∃ es S, constraintsM (fun _ => none) exPlan (fun _ => true) true = some es ∧
+      Inf.unify unifyFuel es [] = .ok S ∧ arrowsOf 9 (Inf.closeUnit S) = exArr :=
+    ⟨_, _, rfl, rfl, by decide +kernel⟩
+  obtain ⟨es, S, h1, h2, h3⟩ := this
+  simp only [inferM, h1, h2]
+  exact congrArg _ h3
+
+theorem ex_infer1 :
+    inferM (fun _ => none) exPlan1 (fun j => (reachable exPlan1).getD j false) true = .ok exArr1 := by
+  have : ∃ es S, constraintsM (fun _ => none) exPlan1 (fun j => (reachable exPlan1).getD j false) true = some es ∧
+      Inf.unify unifyFuel es [] = .ok S ∧ arrowsOf 9 (Inf.closeUnit S) = exArr1 :=
+    ⟨_, _, rfl, rfl, by decide +kernel⟩
+  obtain ⟨es, S, h1, h2, h3⟩ := this
+  simp only [inferM, h1, h2]
+  exact congrArg _ h3
+
+/-- the hypotheses of `eval_prune_retyping_reachable` on this input: typable, elaborates, runs to
+`()` taking the left side of node 7 only; the pruned plan has `assertl` at 7 and re-infers; the
+witness type shrinks strictly and the pruned witness bits exist -/
+example : wf exPlan = true ∧
+    inferM (fun _ => none) exPlan (fun _ => true) true = .ok exArr ∧
+    (∃ (t : Term .one .one) (tr : Trace),
+      elabNode { plan := exPlan, arrows := exArr, wit := exWit, cmr := #[], jets := fun _ _ => none } 10 8
+        = some ⟨.one, .one, t⟩ ∧
+      evalT t (labOf exPlan (fun j => j) 10 8) .unit = .ok (.unit, tr) ∧ tr.sides = [(7, false)]) ∧
+    exPlan1 = #[.witness, .iden, .pair 0 1, .unit, .unit, .case 4 4, .take 5, .assertl 3 0, .comp 2 7] ∧
+    inferM (fun _ => none) exPlan1 (fun j => (reachable exPlan1).getD j false) true = .ok exArr1 ∧
+    pruneWit exWit exArr exArr1 0 = some [false] ∧
+    (exArr.getD 0 (.one, .one)).2 = .sum .one (.prod (.sum .one .one) .one) ∧
+    (exArr1.getD 0 (.one, .one)).2 = .sum .one .one :=
+  ⟨rfl, ex_infer, ⟨_, _, rfl, rfl, rfl⟩, rfl, ex_infer1, rfl, rfl, rfl⟩
+end Example
 
 /-! ## (T) typed terms: the `Pruner` step -/
 
